@@ -63,6 +63,13 @@ Theorem C10_string_round_trip_ws : forall html s ws t rest,
             (sen_quoted html s = true \/ reserved s = false -> val_of o = SvStr (sanitize s)).
 Proof. exact sen_string_round_trip_ws. Qed.
 
+(* arrays of strings: what the tight writer produces (elements separated by one blank) is read back
+   element by element - the first statement of C10 above the level of one value *)
+Theorem C10_array_of_strings_round_trip : forall html xs rest,
+  Forall (elem_ok html) xs ->
+  read_array (sen_array html xs ++ rest) = Some (map (elem_out html) xs, rest).
+Proof. exact sen_array_round_trip. Qed.
+
 (* the two exceptions are real (the recorded finding C10-bare-reserved-or-sign-string, in the model):
    "true" is written bare and read as the boolean; "-a" is written bare and is not a token *)
 Theorem C10_reserved_value_refuted :
@@ -89,3 +96,4 @@ Proof. vm_compute. repeat split; reflexivity. Qed.
 Print Assumptions C10_quoted_string_round_trip.
 Print Assumptions C10_bare_string_round_trip.
 Print Assumptions C10_string_round_trip.
+Print Assumptions C10_array_of_strings_round_trip.
